@@ -65,13 +65,17 @@ func TestGovcC08AggregateLaws(t *testing.T) {
 		"no index": `type Users { name: String age: Int score: Float }`,
 		"indexed":  `type Users { name: String @index age: Int @index score: Float @index }`,
 	}
-	filters := []string{"", `filter: {age: {_gt: 0}}`, `filter: {name: {_in: ["a", "c"]}}`, `filter: {score: {_ne: null}}`, `filter: {age: {_eq: 99}}`}
+	filters := []string{"", `filter: {age: {_gt: 0}}`, `filter: {name: {_in: ["a", "c"]}}`, `filter: {score: {_ne: null}}`, `filter: {age: {_eq: 99}}`,
+		`filter: {age: {_in: [7, 1, 2]}}`, `filter: {name: {_in: ["c", "a"]}}`}
 	orders := []string{`order: {age: ASC}`, `order: {age: DESC}`, `order: {score: DESC}`, `order: [{name: ASC}, {age: DESC}]`}
 	type lim struct{ l, o int }
 	limits := []lim{{0, 0}, {2, 0}, {0, 2}, {2, 1}, {3, 5}, {1, 9}, {10, 0}}
 	var problems []c08Law
 	cases := 0
-	for sname, schema := range schemas {
+	// the sequence of sort keys of an ordered listing, per request, on the collection without indexes
+	plainKeys := map[string]string{}
+	for _, sname := range []string{"no index", "indexed"} {
+		schema := schemas[sname]
 		db, _, _ := c05NewDB(t, ctx)
 		c05Users(t, ctx, db, schema, docs...)
 		add := func(law, what string) { problems = append(problems, c08Law{sname, law, what}) }
@@ -104,6 +108,43 @@ func TestGovcC08AggregateLaws(t *testing.T) {
 				full, ok := list(join(f, o))
 				if !ok {
 					continue
+				}
+				// the ordered listing is ordered: the first sort key never decreases (ASC) / increases (DESC) between
+				// two non-null neighbours, and the key sequence is the same with and without the indexes
+				{
+					fld := strings.Fields(strings.TrimPrefix(strings.TrimPrefix(o, "order: ["), "order: {"))[0]
+					fld = strings.TrimSuffix(strings.TrimPrefix(fld, "{"), ":")
+					desc := strings.Contains(strings.SplitN(o, ",", 2)[0], "DESC")
+					var seq []string
+					var prev any
+					unordered := false
+					for _, r := range full {
+						seq = append(seq, fmt.Sprint(r[fld]))
+						cur := r[fld]
+						if prev != nil && cur != nil {
+							less := false
+							if a, ok := c08Num(prev); ok {
+								b, _ := c08Num(cur)
+								less = b < a
+							} else {
+								less = fmt.Sprint(cur) < fmt.Sprint(prev)
+							}
+							if less != desc && fmt.Sprint(cur) != fmt.Sprint(prev) && !unordered {
+								unordered = true
+								add("an ordered listing is ordered by its first key", fmt.Sprintf("%s / %s: %v", f, o, full))
+							}
+						}
+						if cur != nil {
+							prev = cur
+						}
+					}
+					cases++
+					k := f + " / " + o
+					if sname == "no index" {
+						plainKeys[k] = strings.Join(seq, ",")
+					} else if pk, ok := plainKeys[k]; ok && pk != strings.Join(seq, ",") {
+						add("ordered listing: same key sequence with and without the indexes", fmt.Sprintf("%s: without %s, with %s", k, pk, strings.Join(seq, ",")))
+					}
 				}
 				for _, lm := range limits {
 					var la []string
